@@ -13,3 +13,19 @@ def req(host, uri, path=None, method='GET', tls=0, cookies=()):
     return f"req method={B(method)} host={B(host)} path={B(path)} uri={B(uri)} tls={tls} cookies={L(cookies)}"
 def route(host, path): return f"route host={B(host)} path={B(path)}"
 OBS = ["list", "snapshot", "probing"]
+
+# ---- proxy engine (M4) schedule lines
+def p_hold(n, v=1): return f"hold name={B(n)} v={v}"
+def p_target(n, mode): return f"target name={B(n)} probe={mode}"
+def p_deploy(c, svc, targets, dt=2000000000, drt=700000000, rollout=False):
+    return f"{'rollout-deploy' if rollout else 'deploy'} c={c} svc={B(svc)} targets={L(targets)} dt={dt} drt={drt}"
+def p_req(r, svc, cookie='', hc=0): return f"req r={r} svc={B(svc)} cookie={B(cookie)} hc={hc}"
+def p_pause(c, svc, drt, fa): return f"pause c={c} svc={B(svc)} drt={drt} failafter={fa}"
+def p_stop(c, svc, drt, msg=''): return f"stop c={c} svc={B(svc)} drt={drt} msg={B(msg)}"
+def p_resume(c, svc): return f"resume c={c} svc={B(svc)}"
+def p_remove(c, svc): return f"remove c={c} svc={B(svc)}"
+def p_arm(l): return f"arm label={l}"
+def p_disarm(l): return f"disarm label={l}"
+def p_release(l, k='*'): return f"release label={l} key={k}"
+def p_respond(r, st=200): return f"respond r={r} status={st}"
+def p_adv(ns): return f"advance ns={ns}"
